@@ -81,8 +81,11 @@ def featureClass (e : Edge) (o : Obj) : String :=
 
 /-- signature of an endpoint violation: clause, feature class of the shape, self loop or not, side of the box the
     point lies on, near (≤ 16 px: within reach of a decoration offset) or far from the extent, engine -/
-def endSig (clause engine : String) (e : Edge) (o : Obj) (p : Pt) : String :=
-  let loop := if e.src == e.dst then "selfloop" else "edge"
+def endSig (clause engine : String) (es : List Edge) (e : Edge) (o : Obj) (p : Pt) : String :=
+  -- `parallel`: another connection joins the same two shapes (either direction) — ELK then spreads the ends along
+  -- the side of the box it laid out, which includes the margins
+  let twins := es.filter fun x => !x.lifeline && ((x.src == e.src && x.dst == e.dst) || (x.src == e.dst && x.dst == e.src))
+  let loop := if e.src == e.dst then "selfloop" else if twins.length > 1 then "parallel" else "edge"
   let far := if extentDist o p ≤ 16 then "near" else "far"
   let kind := if o.container then "container" else "leaf"
   let perim := if clause == "start-off-source" then e.srcPerim else e.dstPerim
@@ -101,10 +104,10 @@ def checkEdges (engine path : String) (os : List Obj) (es : List Edge) : Option 
       match findObj os e.src, findObj os e.dst with
       | some s, some d =>
         if !endsOnExtent tol s e.srcPerim first then
-          return some (.specfalse (endSig "start-off-source" engine e s first)
+          return some (.specfalse (endSig "start-off-source" engine es e s first)
             s!"board {path}: edge {e.id} starts at {ptStr first} ({sideOf s first} of the box, {ratStr ((extentDist s first).floor)} px from the extent), source {s.id} shape={s.shape} {boxStr s.box} label={s.labelPos} 3d={s.is3d} multiple={s.multiple}")
         if !endsOnExtent tol d e.dstPerim last then
-          return some (.specfalse (endSig "end-off-destination" engine e d last)
+          return some (.specfalse (endSig "end-off-destination" engine es e d last)
             s!"board {path}: edge {e.id} ends at {ptStr last} ({sideOf d last} of the box, {ratStr ((extentDist d last).floor)} px from the extent), destination {d.id} shape={d.shape} {boxStr d.box} label={d.labelPos} 3d={d.is3d} multiple={d.multiple}")
       | _, _ => return some (.bad s!"board {path}: endpoint of {e.id} not in the dump")
     | _, _ => continue   -- fewer than two points: C17's subject
